@@ -4,6 +4,7 @@ pub mod c03;
 pub mod c05;
 pub mod c09;
 pub mod c11;
+pub mod c12;
 pub mod c15;
 pub mod c16;
 
@@ -18,6 +19,7 @@ pub fn eval(op: &str, args: &[&str]) -> Option<String> {
         "c05" => c05::eval(op, args),
         "c09" => c09::eval(op, args),
         "c11" => c11::eval(op, args),
+        "c12" | "c13" | "c14" => c12::eval(op, args),
         "c15" => c15::eval(op, args),
         "c16" => c16::eval(op, args),
         _ => None,
@@ -31,6 +33,7 @@ pub fn generate(prop: &str, thorough: bool, rng: &mut Rng, em: &mut Emit) {
         "C05" => c05::generate(thorough, rng, em),
         "C09" => c09::generate(thorough, rng, em),
         "C11" => c11::generate(thorough, rng, em),
+        "C12" | "C13" | "C14" => c12::generate(prop, thorough, rng, em),
         "C15" => c15::generate(thorough, rng, em),
         "C16" => c16::generate(thorough, rng, em),
         _ => panic!("unknown property {}", prop),
